@@ -114,7 +114,11 @@ def run(ctx):
                     fs = set(f[1])
                     nonempty = {("cmp", "Ge", ("len", sarg), ("c", 1)), ("cmp", "Gt", ("len", sarg), ("c", 0)), ("cmp", "Ne", ("len", sarg), ("c", 0))}
                     last0 = ("cmp", "Eq", ("cidx", ("deref", sarg), 1, True), ("c", 0))
-                    return len(fs) == 2 and last0 in fs and len(fs & nonempty) == 1
+                    if len(fs) == 2 and last0 in fs and len(fs & nonempty) == 1:
+                        return True
+                    # `match s.last() { Some(0) => .. }`: last() is Some (std: the final element, when there is one) and it is 0
+                    lastc = ("call", "core::slice::<impl [u8]>::last", (sarg,))
+                    return fs == {("cmp", "Eq", ("discr", lastc), ("c", 1)), ("cmp", "Eq", ("deref", ("fld", ("dc", lastc, 1), 0)), ("c", 0))}
                 if f[0] == "istrue" and f[1][0] == "call" and f[1][1] == "<core::option::Option<&u8> as core::cmp::PartialEq>::eq":
                     a_, b_ = [SEL.unref(x) for x in f[1][2]]
                     for (x, y) in ((a_, b_), (b_, a_)):
